@@ -19,6 +19,15 @@ theorem mu_step (c : Cfg) (s s' : State) (a : Act) (h : step c s a = some s') :
   case cTargetEnd => split at h <;> simp at h; subst h; simp_all [mu, crank, Act.isAsk]
   case cSend1 => split at h <;> simp at h; subst h; simp_all [mu, crank, Act.isAsk]
   case cSend2 => split at h <;> simp at h; subst h; simp_all [mu, crank, Act.isAsk]
+  case cSendFail =>
+    split at h <;> simp at h; subst h
+    rename_i hc
+    refine ⟨fun _ => ?_, fun h => by simp [Act.isAsk] at h⟩
+    show crank CPc.exited + krank s.kpc + (if s.logStopped then 0 else 1)
+        < crank s.cpc + krank s.kpc + (if s.logStopped then 0 else 1)
+    have : 0 < crank s.cpc := by rcases hc with h | h <;> simp [h.1, crank]
+    have : crank CPc.exited = 0 := rfl
+    omega
   case cExit => split at h <;> simp at h; subst h; simp_all [mu, crank, Act.isAsk]
   case kill sig =>
     split at h <;> simp at h; subst h
@@ -76,8 +85,14 @@ theorem progress_of_inv (c : Cfg) (s : State) (hi : Inv c s) (hnf : ¬ Final s) 
   cases hcp : s.cpc with
   | boot => exact ⟨.cBoot, rfl, rfl, by simp [step, hcp]⟩
   | target => exact ⟨.cTargetEnd, rfl, rfl, by simp [step, hcp]⟩
-  | send1 => exact ⟨.cSend1, rfl, rfl, by simp [step, hcp]⟩
-  | send2 => exact ⟨.cSend2, rfl, rfl, by simp [step, hcp]⟩
+  | send1 =>
+    cases hcan : canSend1 c.outcome with
+    | true => exact ⟨.cSend1, rfl, rfl, by simp [step, hcp, hcan]⟩
+    | false => exact ⟨.cSendFail, rfl, rfl, by simp [step, hcp, hcan]⟩
+  | send2 =>
+    cases hcan : canSend2 c.outcome with
+    | true => exact ⟨.cSend2, rfl, rfl, by simp [step, hcp, hcan]⟩
+    | false => exact ⟨.cSendFail, rfl, rfl, by simp [step, hcp, hcan]⟩
   | closing => exact ⟨.cExit, rfl, rfl, by simp [step, hcp]⟩
   | exited =>
     obtain ⟨hw, hcode⟩ := c5 hcp
